@@ -77,9 +77,16 @@ func childMain(c *vkit.Ctx) {
 		b, _ := json.Marshal(sc)
 		c.Nontrivial(sc.Family + ":" + vkit.Hash(string(b)))
 	}
-	if idx%7 == 0 {
+	var alog []string
+	for _, g := range obs.Gens {
+		alog = append(alog, g.AgentLog...)
+	}
+	if idx%7 == 0 || len(alog) > 0 {
+		if len(alog) > 4 {
+			alog = alog[:4]
+		}
 		c.Sample(map[string]any{"family": sc.Family, "outputs": sc.Outputs, "mode": sc.Mode, "generations": len(sc.Gens), "records_sent": len(obs.Sent),
-			"chunks_seen": len(obs.Chunks), "info": info, "upstream_events": obs.Gens[0].UpEvents})
+			"chunks_seen": len(obs.Chunks), "info": info, "upstream_events": obs.Gens[0].UpEvents, "agent_error_log": alog})
 	}
 	for _, f := range fs {
 		c.Violation(f.Class+":"+sc.Family, f.What, map[string]any{"scenario": sc, "info": info, "upstream_events": obs.Gens[len(obs.Gens)-1].UpEvents})
